@@ -419,6 +419,16 @@ func runC12(c *fw.Ctx) {
 		}
 		r := c.Rng(id)
 		cs := genCase(r, scfg)
+		if i%40 == 17 {
+			// store calls that name hundreds or thousands of accounts
+			cs = genCase(r, with(func(l *gen.LCfg) {
+				l.Accounts = manyAccounts(1300)
+				l.Assets = []string{"USD"}
+				l.Ladder = true
+				l.Depth, l.Fanout, l.MinStmts, l.MaxStmts, l.PLongSrc, l.PFunded, l.PRepeat, l.PVarAcct, l.PWorld = 1, 1300, 1, 2, 100, 95, 1, 1, 2
+			}))
+			c.Count("store_fault_scripts_with_long_sources", 1)
+		}
 		for k := r.Intn(4); k > 0; k-- {
 			addMetaOrigin(cs, r.Intn(9))
 		}
